@@ -2,6 +2,7 @@
 use crate::engine::{self, Prop, Tier};
 use std::path::Path;
 
+pub mod c01;
 pub mod c09;
 
 macro_rules! registry {
@@ -29,5 +30,6 @@ macro_rules! registry {
 }
 
 registry! {
+    "C01" => c01::C01,
     "C09" => c09::C09,
 }
